@@ -101,12 +101,8 @@ def analyse(actions):
             if src == "DISK":
                 disk_acc += 1
             if a[0] == "Move":
-                if pos != len(stack) - 1:
-                    ok = False
-                    msg = f"{a}: deletes position {pos}, not the stack top"
-                    del stack[pos]
-                else:
-                    stack.pop()
+                # (deleting below the top is unusual but not C14's business)
+                del stack[pos]
     return label, acc, ok, disk_acc, msg
 
 
